@@ -728,6 +728,25 @@ func c11Run(c *engine.Ctx) {
 		}
 		return arr
 	}
+	mkNum := func(keys []int, wrap bool) []any {
+		arr := make([]any, len(keys))
+		for i, k := range keys {
+			var v any
+			switch (i + i/3) % 3 {
+			case 0:
+				v = k
+			case 1:
+				v = float64(k)
+			default:
+				v = univ.Big(fmt.Sprint(k))
+			}
+			if wrap {
+				v = map[string]any{"a": v}
+			}
+			arr[i] = v
+		}
+		return arr
+	}
 	runLong := func(arr []any, label string) {
 		if !c.Guard(label) {
 			return
@@ -755,6 +774,9 @@ func c11Run(c *engine.Ctx) {
 				keys[i] = bits >> i & 1
 			}
 			runLong(mk(keys), fmt.Sprintf("binkeys len=%d bits=%d", l, bits))
+			if bits%8 == 0 {
+				runLong(mkNum(keys, false), fmt.Sprintf("numbinkeys len=%d bits=%d", l, bits))
+			}
 		}
 	}
 	li := 0
@@ -770,10 +792,14 @@ func c11Run(c *engine.Ctx) {
 					keys[i] = (i*mul + i/mod) % mod
 				}
 				runLong(mk(keys), fmt.Sprintf("pattern len=%d mod=%d mul=%d", l, mod, mul))
+				// the same key pattern as whole elements that compare equal yet are distinguishable
+				// (1, 1.0, big 1; objects holding them): plain sort, unique, min and max have ties too
+				runLong(mkNum(keys, false), fmt.Sprintf("numpattern len=%d mod=%d mul=%d", l, mod, mul))
+				runLong(mkNum(keys, true), fmt.Sprintf("numobjpattern len=%d mod=%d mul=%d", l, mod, mul))
 			}
 		}
 	}
-	c.Sample(map[string]any{"long_array_keys": "all 2^13 binary key sequences; patterned arrays up to 300 elements"})
+	c.Sample(map[string]any{"long_array_keys": "all 2^13 binary key sequences; patterned arrays up to 300 elements, also as whole elements that compare equal but differ in number representation (int, float64, big.Int; bare and inside objects)"})
 
 	// (4) bsearch over sorted arrays x all targets; subtraction and indices over array pairs
 	c.Sub("bsearch")
